@@ -293,6 +293,10 @@ class DFA(FSA):
                 # There is no character after the last code point
                 return None
             label = unichr(ord(label) + 1)
+            if u"\ud800" <= label <= u"\udfff":
+                # Surrogate code points cannot occur in a term (they cannot
+                # be encoded): continue after them
+                label = u"\ue000"
         trans = self.transitions.get(s, {})
         if label in trans or s in self.defaults:
             return label
